@@ -9,7 +9,7 @@ use core::task::{RawWaker, RawWakerVTable, Waker};
 /// slots tracked by the ghost (harness capacities are <= MAXS)
 pub const MAXS: usize = 4;
 /// child identities
-pub const NCH: usize = 6;
+pub const NCH: usize = 8;
 /// retained child-waker handles
 pub const NH: usize = 2;
 pub const NOSLOT: u8 = 0xff;
